@@ -105,8 +105,8 @@ def _donate_positions(call):
 
 
 class Analyzer:
-  def __init__(self, tree, factory):
-    self.tree, self.factory = tree, factory
+  def __init__(self, tree, factory, fn='apply'):
+    self.tree, self.factory, self.fn = tree, factory, fn
     self.out = []                     # (ecmd text, source comment)
     self.modules = set()              # names bound by import statements
     self.module_defs, self.factory_defs = {}, {}
@@ -130,8 +130,8 @@ class Analyzer:
     for n in fac.body:
       if isinstance(n, ast.FunctionDef):
         self.factory_defs[n.name] = n
-    if 'apply' not in self.factory_defs:
-      raise Unsupported(f'{factory}: no nested apply()')
+    if fn not in self.factory_defs:
+      raise Unsupported(f'{factory}: no nested {fn}()')
     # every jit / pmap with donation anywhere in the module
     for n in ast.walk(tree):
       if isinstance(n, ast.Assign) and len(n.targets) == 1 and isinstance(n.targets[0], ast.Name):
@@ -175,7 +175,7 @@ class Analyzer:
       raise Unsupported('use of ' + name)
     # an outer function passed around as a callback: its body runs during this call
     fd = self.factory_defs.get(name) or self.module_defs.get(name)
-    if fd is not None and name != 'apply':
+    if fd is not None and name != self.fn:
       if name not in self.callbacks_done and name not in self.inlining:
         self.callbacks_done.add(name)
         self.run_def(fd, [Val(OWN) for _ in fd.args.args], {}, env_outer=True)
@@ -509,18 +509,18 @@ class Analyzer:
     return Val(OWN)
 
 
-def effects_of(tree, factory):
-  an = Analyzer(tree, factory)
-  ap = an.factory_defs['apply']
+def effects_of(tree, factory, fn='apply'):
+  an = Analyzer(tree, factory, fn)
+  ap = an.factory_defs[fn]
   env = {a.arg: Val(IN) for a in ap.args.args}
-  an.inlining.append('apply')
+  an.inlining.append(fn)
   an.block(ap.body, env, [])
   return an.out
 
 
-def A_effects(factory, coqname=None):
+def A_effects(factory, coqname=None, fn='apply'):
   def emit(tree):
-    out = effects_of(tree, factory)
+    out = effects_of(tree, factory, fn)
     name = (coqname or factory) + '_effects'
     lines = [f'  {t}' + (';' if i + 1 < len(out) else ' ') + f'    (* {c.replace("*)", "* )").replace("(*", "( *")} *)'
              for i, (t, c) in enumerate(out)]
@@ -608,7 +608,9 @@ MODULES = {
     'Gen_c10_mime_lite': _mod(ALG + 'mime_lite.py', 'mime_lite'),
     'Gen_c10_agnostic_fed_avg': _mod(ALG + 'agnostic_fed_avg.py', 'agnostic_federated_averaging'),
     'Gen_c10_hyp_cluster': _mod(ALG + 'hyp_cluster.py', 'hyp_cluster'),
-    'Gen_c10_apfl': _mod(ALG + 'apfl.py', 'adaptive_personalized_federated_learning'),
+    'Gen_c10_apfl': {'src': ALG + 'apfl.py', 'preamble': PRE,
+                     'items': [A_effects('adaptive_personalized_federated_learning'),
+                               A_effects('eval_adaptive_personalized_federated_learning', 'apfl_eval', fn='__fn')]},
     'Gen_c10_compression': {
         'src': 'fedjax/aggregators/compression.py', 'preamble': PRE,
         'items': [A_effects(f) for f in QUANTIZERS] + [A_key_depth(f) for f in QUANTIZERS]},
